@@ -57,6 +57,10 @@ def cases(rng, tier):
     for kind, s in gen.rand_seqs(rng, 120 if tier == "quick" else 1200, 200):
         lines, idx = block(s, rng)
         yield Case(lines, {"kind": kind, "idx": idx}, nontrivial=len(set(s)) >= 2 and len(s) >= 6)
+    # raw constructor arguments with white space (blocks of ten, line breaks, tabs): same answers as the normalised word
+    for kind, s in gen.rand_seqs(rng, 30 if tier == "quick" else 300, 60):
+        lines, idx = block(s, rng)
+        yield Case(gen.ws_lines(lines, rng), {"kind": "whitespace-input", "idx": idx})
 
 
 def judge(case, reals, gens, specs):
